@@ -17,6 +17,7 @@ def describe(ck):
     ck.rule("R14a", "between entry of kalign_run and finalise_alignment, msa_seq.seq is read only by the letter-to-code function, and the letter only indexes the alphabet table (or is compared with constants / printed in the warning)")
     ck.rule("R14b", "for every alphabet kalign_run selects, the evaluated table gives each upper-case letter and its lower-case twin the same code")
     ck.rule("R14c", "the evaluated nucleotide table gives U and T (u and t) the same code; the kind decision treats both as nucleotide letters with equal weight")
+    ck.rule("R14d", "the kind decision cannot tell the spellings apart either: case-closed letter sets, T/U both nucleotide letters, only letters vote (= R13b)")
     ck.assumptions += ["C-locale isalpha; the readers keep exactly the isalpha characters (R04a)"]
 
 
@@ -144,6 +145,8 @@ def r14bc(ck, prog):
         t = tabs[name]
         where = "create_alphabet(%s)" % name
         if t["error"]:
+            if t["error"].startswith("undecided"):
+                raise AnalysisBroken("R14b: the constructor of %s uses a construct the constant evaluator does not model (%s)" % (name, t["error"]))
             ck.violation("R14b", "R14b/create_alphabet/%s" % name, where, "alphabet %s: %s" % (name, t["error"]), prog.config)
             continue
         tab = t["to_internal"]
@@ -190,6 +193,14 @@ def run(ck, progs):
     for cfg, prog in progs.items():
         ck.attempt(r14a, ck, prog)
         ck.attempt(r14bc, ck, prog)
+        b0 = len(ck.instances)
+        ck.attempt(c13.r13b, ck, prog)
+        for i in ck.instances[b0:]:
+            i["rule"] = "R14d"
+        for v in ck.violations:
+            if v["rule"] == "R13b":
+                v["rule"] = "R14d"
+                v["key"] = v["key"].replace("R13b", "R14d")
     return ("Who-may-read of msa_seq.seq over everything kalign_run runs before finalise_alignment and the uses of the "
             "letter inside the translation function; the alphabet tables of every alphabet kalign_run selects, obtained by "
             "constant evaluation of create_alphabet and its callees (loops unrolled, calls inlined), compared entry by entry "
